@@ -5,6 +5,7 @@ import (
 	"fmt"
 	"github.com/aml-org/amf-custom-validator/internal/parser/path"
 	y "github.com/aml-org/amf-custom-validator/internal/parser/yaml"
+	"strconv"
 )
 
 type NumericRule struct {
@@ -47,7 +48,17 @@ func (r NumericRule) StringArgument() string {
 		return fmt.Sprintf("%d", i)
 	}
 	f, _ := r.Argument.Float()
-	return fmt.Sprintf("%f", f)
+	return FormatFloatArgument(f)
+}
+
+// FormatFloatArgument renders a float argument with six decimals, as always, unless six decimals cannot hold the
+// number (0.0000005 would become 0.000001): then the shortest exact decimal form is used.
+func FormatFloatArgument(f float64) string {
+	fixed := fmt.Sprintf("%f", f)
+	if parsed, err := strconv.ParseFloat(fixed, 64); err == nil && parsed == f {
+		return fixed
+	}
+	return strconv.FormatFloat(f, 'f', -1, 64)
 }
 
 func newNumericComparison(negated bool, name string, operation CardinalityOperation, variable Variable, path path.PropertyPath, argument *y.Yaml) (NumericRule, error) {
